@@ -15,12 +15,12 @@ def FM (contents : List (Option Text)) (a : Orig) (chunk : Text) : Prop :=
 /-- the walker stands at byte offset `chunkPos` of the inner chunk and carries the location advanced by exactly that much -/
 structure LAdv (a : Orig) (cs : Nat) (chunk : Text) (st : RSt) (l : LSt) : Prop where
   pos : st.pos = cs + l.chunkPos
-  inb : l.chunkPos ≤ chunk.length
+  inb : l.chunkPos < chunk.length
   orig : ∃ n, l.orig = some { a with col := a.col + l.chunkPos, name := n }
 
 /-- a delivered chunk reports `a`'s source and line and the column `a.col + p` for an offset `p` inside the inner chunk -/
 def AtOffset (a : Orig) (chunk : Text) (mm : Mapping) : Prop :=
-  ∃ p, p ≤ chunk.length ∧ ∃ y, mm.orig = some y ∧ y.src = a.src ∧ y.line = a.line ∧ y.col = a.col + p
+  ∃ p, p < chunk.length ∧ ∃ y, mm.orig = some y ∧ y.src = a.src ∧ y.line = a.line ∧ y.col = a.col + p
 
 def AllAt (a : Orig) (chunk : Text) (evs : List Ev) : Prop := ∀ t mm, Ev.chunk t mm ∈ evs → AtOffset a chunk mm
 
@@ -41,7 +41,7 @@ theorem advOrig_fm (contents : List (Option Text)) (a : Orig) (chunk : Text) (hf
     exact this
   simp only [hc, if_true]
 
-theorem emitContent_at (a : Orig) (chunk : Text) (gc : Nat) (orig : Option Orig) (p : Nat) (hp : p ≤ chunk.length)
+theorem emitContent_at (a : Orig) (chunk : Text) (gc : Nat) (orig : Option Orig) (p : Nat) (hp : p < chunk.length)
     (ho : ∃ n, orig = some { a with col := a.col + p, name := n }) :
     ∀ (cls : List Text) (nameIdx : Option Nat) (st : RSt) (line : Int),
     AllAt a chunk (emitContent gc orig cls nameIdx st line).2.1 ∧ (emitContent gc orig cls nameIdx st line).1.pos = st.pos
@@ -71,7 +71,7 @@ theorem emitContent_at (a : Orig) (chunk : Text) (gc : Nat) (orig : Option Orig)
       · cases h; exact hev
       · exact i1 t mm h
 
-theorem mapName_at (a : Orig) (chunk : Text) (nim : List Nat) (p : Nat) (hp : p ≤ chunk.length) (orig : Option Orig)
+theorem mapName_at (a : Orig) (chunk : Text) (nim : List Nat) (p : Nat) (hp : p < chunk.length) (orig : Option Orig)
     (ho : ∃ n, orig = some { a with col := a.col + p, name := n }) (gl gc : Nat) : AtOffset a chunk ⟨gl, gc, mapName nim orig⟩ := by
   obtain ⟨n, hn⟩ := ho
   exact ⟨p, hp, { a with col := a.col + p, name := n.bind fun k => nim[k]? }, by rw [hn]; rfl, rfl, rfl, rfl⟩
@@ -90,7 +90,7 @@ theorem rIter_adv (a : Orig) (chunk : Text) (gl cs : Nat) (r : Repl) (rs : List 
     unfold rBefore
     by_cases hgt : r.start > st.pos
     · simp only [hgt, if_true]
-      have hend : l.chunkPos + (r.start - st.pos) ≤ chunk.length := by omega
+      have hend : l.chunkPos + (r.start - st.pos) < chunk.length := by omega
       refine ⟨?_, ⟨by simp only; omega, hend, ?_⟩, by first | rfl | trivial⟩
       · intro t mm h
         simp only [List.mem_singleton] at h
@@ -98,8 +98,8 @@ theorem rIter_adv (a : Orig) (chunk : Text) (gl cs : Nat) (r : Repl) (rs : List 
         exact mapName_at a chunk st.nim l.chunkPos p2 l.orig ⟨n0, p3⟩ _ _
       · refine ⟨n0, ?_⟩
         simp only
-        rw [p3, advOrig_fm st.contents a chunk hfm l.chunkPos (l.chunkPos + (r.start - st.pos)) (by omega) hend,
-          bsub_length chunk _ _ (by omega) hend]
+        rw [p3, advOrig_fm st.contents a chunk hfm l.chunkPos (l.chunkPos + (r.start - st.pos)) (by omega) (Nat.le_of_lt hend),
+          bsub_length chunk _ _ (by omega) (Nat.le_of_lt hend)]
         congr 2
         omega
     · simp only [hgt, if_false]
@@ -136,14 +136,14 @@ theorem rIter_adv (a : Orig) (chunk : Text) (gl cs : Nat) (r : Repl) (rs : List 
     split
     · exact ⟨hall, trivial⟩
     · rename_i hre
-      have hend : b.2.1.chunkPos + ((chunk.length : Int) - ((cs + chunk.length : Nat) : Int) + ((max (reOf c.1) r.stop : Nat) : Int) - (b.2.1.chunkPos : Int)).toNat ≤ chunk.length := by
+      have hend : b.2.1.chunkPos + ((chunk.length : Int) - ((cs + chunk.length : Nat) : Int) + ((max (reOf c.1) r.stop : Nat) : Int) - (b.2.1.chunkPos : Int)).toNat < chunk.length := by
         omega
       refine ⟨hall, ⟨?_, hend, ?_⟩, ?_⟩
       · unfold colShift
         split <;> simp only <;> rw [hpos4] <;> omega
       · refine ⟨nb, ?_⟩
         simp only
-        rw [hcont4, q3, advOrig_fm st.contents a chunk hfm _ _ (by omega) hend]
+        rw [hcont4, q3, advOrig_fm st.contents a chunk hfm _ _ (by omega) (Nat.le_of_lt hend)]
         congr 2
         omega
       · unfold colShift
@@ -152,7 +152,7 @@ theorem rIter_adv (a : Orig) (chunk : Text) (gl cs : Nat) (r : Repl) (rs : List 
 
 theorem rLoop_adv (a : Orig) (chunk : Text) (gl cs : Nat) : ∀ (rs : List Repl) (st : RSt) (l : LSt), FM st.contents a chunk → LAdv a cs chunk st l →
     AllAt a chunk (rLoop chunk gl (cs + chunk.length) rs st l).2.1
-    ∧ ∀ l2, (rLoop chunk gl (cs + chunk.length) rs st l).2.2 = some l2 → l2.chunkPos ≤ chunk.length ∧ ∃ n, l2.orig = some { a with col := a.col + l2.chunkPos, name := n } := by
+    ∧ ∀ l2, (rLoop chunk gl (cs + chunk.length) rs st l).2.2 = some l2 → l2.chunkPos < chunk.length ∧ ∃ n, l2.orig = some { a with col := a.col + l2.chunkPos, name := n } := by
   intro rs
   induction rs with
   | nil =>
@@ -178,9 +178,9 @@ theorem rLoop_adv (a : Orig) (chunk : Text) (gl cs : Nat) : ∀ (rs : List Repl)
 
 /-- **the advance rule**: while the inner chunk `(chunk, m)` with original location `a` is processed and the recorded content
 spells out the chunk (`FM`), every delivered chunk — a piece of the inner text or replacement content spliced into it — reports
-`a`'s source and original line and the column `a.col + p`, where `p ≤ |chunk|` is the byte offset in the inner chunk at which the
+`a`'s source and original line and the column `a.col + p`, where `p < |chunk|` is the byte offset in the inner chunk at which the
 piece was cut / the content was spliced -/
-theorem rOnChunk_adv (st : RSt) (chunk : Text) (m : Mapping) (a : Orig) (hm : m.orig = some a) (hfm : FM st.contents a chunk) :
+theorem rOnChunk_adv (st : RSt) (chunk : Text) (hne : chunk ≠ []) (m : Mapping) (a : Orig) (hm : m.orig = some a) (hfm : FM st.contents a chunk) :
     AllAt a chunk (rOnChunk st chunk m).2 := by
   have ha0 : some a = some ({ a with col := a.col + 0, name := a.name } : Orig) := by cases a; rfl
   unfold rOnChunk
@@ -197,7 +197,6 @@ theorem rOnChunk_adv (st : RSt) (chunk : Text) (m : Mapping) (a : Orig) (hm : m.
           simp only [Option.some.injEq, Prod.mk.injEq] at hstart
           obtain ⟨e1, e2⟩ := hstart
           subst e1 e2
-          have hcp : e - st.pos ≤ chunk.length := by omega
           have hpos : e > st.pos := by
             split at hskip
             · rename_i e' _
@@ -205,16 +204,17 @@ theorem rOnChunk_adv (st : RSt) (chunk : Text) (m : Mapping) (a : Orig) (hm : m.
               · simp only [Option.some.injEq] at hskip; subst hskip; assumption
               · cases hskip
             · cases hskip
+          have hcp : e - st.pos < chunk.length := by omega
           refine ⟨⟨?_, hcp, ⟨a.name, ?_⟩⟩, ?_⟩
           · unfold colShift; split <;> simp only
           · simp only
-            rw [hm, ha0, advOrig_fm st.contents a chunk hfm 0 (e - st.pos) (Nat.zero_le _) hcp]
+            rw [hm, ha0, advOrig_fm st.contents a chunk hfm 0 (e - st.pos) (Nat.zero_le _) (Nat.le_of_lt hcp)]
             simp
           · unfold colShift; split <;> rfl
       · simp only [Option.some.injEq, Prod.mk.injEq] at hstart
         obtain ⟨e1, e2⟩ := hstart
         subst e1 e2
-        exact ⟨⟨by simp, Nat.zero_le _, ⟨a.name, by simp only; rw [hm, ha0]⟩⟩, rfl⟩
+        exact ⟨⟨by simp, List.length_pos_iff.2 hne, ⟨a.name, by simp only; rw [hm, ha0]⟩⟩, rfl⟩
     obtain ⟨a1, a2⟩ := rLoop_adv a chunk m.gl st.pos st1.rest st1 l1 (by rw [h1.2]; exact hfm) h1.1
     split
     · rename_i st2 evs heq
@@ -224,12 +224,11 @@ theorem rOnChunk_adv (st : RSt) (chunk : Text) (m : Mapping) (a : Orig) (hm : m.
       rw [heq] at a1 a2
       obtain ⟨hle, hn⟩ := a2 l2 rfl
       refine allAt_append _ _ _ _ a1 ?_
-      split
-      · intro t mm h
-        simp only [List.mem_singleton] at h
-        cases h
-        exact mapName_at a chunk st2.nim l2.chunkPos hle l2.orig hn _ _
-      · exact allAt_nil _ _
+      rw [if_pos hle]
+      intro t mm h
+      simp only [List.mem_singleton] at h
+      cases h
+      exact mapName_at a chunk st2.nim l2.chunkPos hle l2.orig hn _ _
 
 /-- when is `FM` true: the recorded content line, read from `a`, starts with the (ASCII) chunk text -/
 theorem fm_of_prefix (contents : List (Option Text)) (a : Orig) (chunk c : Text) (ln : Text) (hc : contents[a.src]? = some (some c))
